@@ -118,6 +118,39 @@ def model_cases(rng, tier):
             for m in (False, True):
                 yield Case("get_opcode %s %s %s" % (arg(s), arg(pc), arg(m)),
                            (lambda s=s, pc=pc, m=m: call(_getop, s, pc, m)))
+    for c in text_cases(rng, tier):
+        yield c
+
+
+def _toks(script):
+    """T.opcode_list as canonical tokens: '[hex]' -> bytes, names -> str"""
+    out = []
+    for t in T.opcode_list(script):
+        if t.startswith("["):
+            out.append(bytes.fromhex(t[1:-1]))
+        else:
+            out.append(t)
+    return out
+
+
+def _compile_toks(toks):
+    return T.compile(" ".join(("[%s]" % t.hex()) if isinstance(t, bytes) else t for t in toks))
+
+
+def text_cases(rng, tier):
+    scripts = [_gen_script(rng) for _ in range(800 if tier == "quick" else 20000)]
+    scripts += [bytes([o]) for o in range(256)]
+    scripts += [bytes(rng.getrandbits(8) for _ in range(rng.randint(1, 12))) for _ in range(500 if tier == "quick" else 10000)]
+    for s in scripts:
+        yield Case("disassemble " + arg(s), (lambda s=s: call(_toks, s)))
+    for s in scripts[:600 if tier == "quick" else 15000]:
+        try:
+            toks = _toks(s)
+        except Exception:
+            continue
+        if any(isinstance(t, str) and (not t or " " in t) for t in toks) or not toks:
+            continue
+        yield Case("compile " + arg(toks), (lambda toks=toks: call(_compile_toks, toks)))
 
 
 # ---- direct property checks -----------------------------------------------------------------
